@@ -10,6 +10,8 @@ Decided:
   R10.5  both roll-ups write the container dates unconditionally with respect to the container's own dates
   R10.7  one call of the roll-up closes every nesting level that is complete (children-first order or fixpoint)
   R10.8  the roll-up runs before the first and between a placement and the next readiness scan (= C07 R07.2)
+  R10.9  no answer comes from state that outlives the question (common.process_state_rule)
+  R10.10 the completeness test holds for every child whose dates enter the span (must-fact at the reads; unfiltered all())
 Not decided: equality of container dates with the children's extremes (runtime values).
 """
 from __future__ import annotations
@@ -44,7 +46,61 @@ def _accs(fn):
     return out
 
 
+def all_children_rule(ctx: Ctx, rid: str):
+    """The completeness test of both roll-ups holds for EVERY child whose dates enter the span (must-fact, not mere control
+    dependence): a test restricted to some kind of child lets an incomplete nested container pass."""
+    repo = ctx.repo
+    upd = repo.func("Project._updateContainerTaskStatus")
+    sc = repo.func("TaskScenario.scheduleContainer")
+
+    def sched_read(t: str) -> bool:
+        t = t.replace('"', "'")
+        return ".get('scheduled'" in t
+
+    # scheduleContainer: at the first read of a child's date inside the child loop the child's flag is known to be set
+    loops = [l for l in own_nodes(sc) if isinstance(l, ast.For) and "children" in norm(l.iter)]
+    if len(loops) != 1 or not isinstance(loops[0].target, ast.Name):
+        raise AnchorMissing(f"scheduleContainer: {len(loops)} child loops")
+    child = loops[0].target.id
+    g = cfg_of(sc)
+    facts = facts_of(sc)
+    reads = [n for n in g.nodes if n.ast is not None and isinstance(n.ast, (ast.Assign, ast.AnnAssign)) and n.ast.value is not None
+             and any(isinstance(x, ast.Call) and isinstance(x.func, ast.Attribute) and x.func.attr == "get" and norm(x.func.value) == child
+                     and x.args and isinstance(x.args[0], ast.Constant) and x.args[0].value in ("start", "end") for x in ast.walk(n.ast.value))]
+    if not reads:
+        raise AnchorMissing("scheduleContainer: reads of the children's dates not found")
+    for n in reads:
+        cl = facts.holds(n, lambda t, p: p is True and sched_read(t) and t.startswith(child + "."))
+        ok = cl is not None
+        ctx.ob(rid, f"{sc.qual}: {norm(n.ast)[:60]} under {sorted(cl) if cl else 'no scheduled-fact'}", (sc, n.ast), ok,
+               "a child's dates enter the span only when that child is known to be scheduled" if ok else
+               f"at this read the fact `{child}.get('scheduled', ...)` is not established for every child (the abort test is restricted to some "
+               "children, or missing): a nested container that is incomplete but carries declared dates is summarised as if it were complete",
+               key=key_of(rid, sc, n.ast, "must scheduled"))
+    # _updateContainerTaskStatus: all(<flag of child> for child in <all children>) with no filter
+    alls = [c for c in own_nodes(upd) if isinstance(c, ast.Call) and isinstance(c.func, ast.Name) and c.func.id == "all" and c.args
+            and isinstance(c.args[0], (ast.GeneratorExp, ast.ListComp)) and sched_read(norm(c.args[0].elt))]
+    if not alls:
+        raise AnchorMissing("_updateContainerTaskStatus: all(<child scheduled> for child in children) not found")
+    from ..order import local_resolver
+    res = local_resolver(upd.node)
+    for c in alls:
+        ge = c.args[0]
+        gen = ge.generators[0]
+        it = gen.iter
+        vals = res(it) if isinstance(it, ast.Name) else [it]
+        whole = bool(vals) and all(norm(v) in ("task.children", "list(task.children)", "container.children", "list(container.children)") or
+                                   norm(v).endswith(".children") for v in vals)
+        elt_ok = isinstance(ge.elt, ast.Call) or (isinstance(ge.elt, ast.BoolOp) and isinstance(ge.elt.op, ast.And))
+        ok = len(ge.generators) == 1 and not gen.ifs and whole and elt_ok and not isinstance(ge.elt, ast.BoolOp)
+        ctx.ob(rid, f"{upd.qual}: {norm(c)[:80]}", (upd, c), ok,
+               "the test ranges over all children, unfiltered" if ok else
+               "the all-children test is filtered or weakened: a container can be closed although one of its children is not scheduled",
+               key=key_of(rid, upd, None, "all children"))
+
+
 def run_extra(ctx: Ctx):
+    all_children_rule(ctx, "R10.10")
     # ---------------------------------------------------------------- R10.9 answers never come from state that outlives the question
     from .common import process_state_rule
     process_state_rule(ctx, "R10.9", [ctx.repo.func("Project.schedule")],
@@ -273,6 +329,7 @@ def run(ctx: Ctx):
     ok = "loop" in kinds and "container" in kinds and kinds.index("loop") < kinds.index("container")
     ctx.ob("R10.4", f"{fin.qual}: children before the container {kinds}", fin, ok, "post-order: nested containers are summarised bottom-up" if ok else
            "final roll-up does not process children before their container", key="R10.4|finishScheduling|order")
+    ctx.floor("R10.10", 3)
     from .c16 import scenario_default_rule
     scenario_default_rule(ctx, "R10.6")
     ctx.floor("R10.1", 6)
